@@ -60,6 +60,10 @@ CLAIMED = {
             "Every recursive cycle of the compiler's call graph (28 SCCs) is classified: cut by a counting depth guard on every cycle, confined to one definition's syntax tree (bounded by the parser limit), or run only on validated input; cycles that follow names across definitions without a counting guard are reported (two genuine stack overflows found this way, listed as known findings). Diagnostic lists leave the crate only through sorting exits. Thorough tier adds the reviewed panic-site inventory.",
             "Decides the stack clause relative to guard limits and the sortedness exits; ariadne rendering and drop glue are outside; the allow-list of single-definition cycles carries one reason each.",
             "call-graph SCC classification with guard cut-sets (dominating success edges) + must-pass-through for sort exits over rustc MIR", True),
+    "C03": ("other",
+            "The lexer's character classes are folded from the type-checked source (match patterns, guards, const-evaluated lookup tables) over every ASCII code point plus representatives of every non-ASCII class and compared with the October 2021 sets; sibling agreement of the string-body states on line terminators; writers of Cursor.index. Thorough tier: the advance() state machine extracted as a transducer and compared with a reference machine of the lexical grammar.",
+            "Quick tier decides the tables and the string-body sibling rule, not token boundaries in general; the Cursor primitives are the trusted vocabulary of the thorough tier.",
+            "pattern-set evaluation of HIR predicates over a finite character partition; sibling rule over extracted match arms", True),
 }
 
 NOT_APPLICABLE = {
